@@ -149,8 +149,8 @@ PROPS = {
         props_v="Props/C01.v",
         corr_v=["Corr/CheckSpdx.v"],
         n_quick=70, n_thorough=2500,
-        explanation="Theorems: (graph) every document of the SPDX-representable class - any graph shape - comes back with the same nodes and package/file kinds, the same typed edges (one target per edge) and the same roots; all 44 relationship types and all 16 shared checksum algorithms are inverse pairs of the generated tables; (attributes) names, versions, URLs, licence/copyright texts with the NOASSERTION/NONE/trim conventions, comments, summary, description, attribution, dates to the second (premise: RFC 3339 parse(format t) = t to the second), first supplier and first originator; native primary purposes, the eight SPDX-carried external reference types (OTHER otherwise) and the four identifier kinds by computation over tables regenerated from the code; second pass: read-back edges are a fixed point. Tie: three seams compared with the real code on every run (Serialize struct, tools-golang JSON layer, Unserialize) on random class documents at random indentation; oracle: the statement itself through the public writer/reader incl. a second pass.",
-        assumptions=["modelled: serializer_spdx23.go, unserializer_spdx23.go and the tools-golang JSON layer as struct-level functions (Model/Spdx.v); RFC 3339 formatting/parsing is an oracle (table per case; premise in the theorems)", "per-node equality of checksum maps, identifier maps and external-reference lists after the round trip is validated by the seams and the oracle, the theorems cover their key/type tables"],
+        explanation="Theorems: (graph) every document of the SPDX-representable class - any graph shape - comes back with the same nodes and package/file kinds, the same typed edges (one target per edge) and the same roots; all 44 relationship types and all 16 shared checksum algorithms are inverse pairs of the generated tables; (attributes) names, versions, URLs, licence/copyright texts with the NOASSERTION/NONE/trim conventions, comments, summary, description, attribution, dates to the second (premise: RFC 3339 parse(format t) = t to the second), first supplier and first originator; native primary purposes, the eight SPDX-carried external reference types (OTHER otherwise) and the four identifier kinds by computation over tables regenerated from the code; second pass: read-back edges are a fixed point. Tie: three seams compared with the real code on every run (Serialize struct, tools-golang JSON layer, Unserialize) on random class documents at random indentation; oracle: the statement itself through the public writer/reader incl. a second pass. Checksum maps over the 16 SPDX algorithms (packages and files), external references of the reference types SPDX carries and package identifiers of the four kinds SPDX spells come back unchanged (kvsort_unique + generated tables).",
+        assumptions=["modelled: serializer_spdx23.go, unserializer_spdx23.go and the tools-golang JSON layer as struct-level functions (Model/Spdx.v); RFC 3339 formatting/parsing is an oracle (table per case; premise in the theorems)", "per-node theorems are about the conversion pair (node_to_pkg / pkg_to_node, node_to_file / file_to_node); the JSON layer between them is the identity on the class (spdx_chan, proved for the class in the graph theorem and observed on every run)"],
     ),
 }
 
